@@ -389,3 +389,15 @@ Example partial_nonvacuous :
   execute (("PATH", "/usr/bin") :: witness_caller)%string (str_of (render stmts)) ["cmd"%string]
   = Ran [("PATH", "/opt/m/bin:/usr/bin"); ("MODULESHOME", "/opt/lmod"); ("HOME", "/home/u"); ("FOO", "a b")]%string ["cmd"%string].
 Proof. vm_compute. auto. Qed.
+
+(* what Lmod prints for an unset (unsetenv / unload): an assignment of the empty string followed by a del.
+   The scanner reads the assignment and never the del, so the command sees the variable set to the empty string.
+   Recorded as behaviour, not as a violation: the property speaks of variables the modules set and of
+   variables they do not touch; a variable a module unsets is neither. *)
+Definition unset_text : string :=
+  str_of (la_of "os.environ[""X""] = ''" ++ [nl] ++ la_of "del os.environ[""X""]" ++ [nl]).
+Example unset_reads_as_empty :
+  execute [("MODULESHOME", "/m"); ("X", "old"); ("HOME", "/h")]%string unset_text ["cmd"%string]
+  = Ran [("MODULESHOME", "/m"); ("X", ""); ("HOME", "/h")]%string ["cmd"%string] /\
+  findall unset_text = [("X", "")]%string.
+Proof. vm_compute. auto. Qed.
